@@ -7,8 +7,18 @@
 (* logged as -1 and matches nothing.                                                              *)
 EXTENDS TaskSched, TraceCommon
 
-VARIABLES l
+VARIABLES l,
+          idle       \* the not-scheduled task whose cancel call is in progress and has not invoked its function (0: none)
 Ev == TraceLog[l]
+
+(* cancel_task on a task that is not scheduled (freshly initialised, or already run): task_scheduler.h does not say       *)
+(* whether its function is then called with CANCELED (the pinned code does call it); either way nothing else changes -    *)
+(* in particular no other task is cancelled, lost or delayed.                                                            *)
+TCancelIdle == Ev.e = "CancelIdle" /\ idle = 0 /\ owed = NONE /\ Ev.t \in Tasks /\ Ev.t \notin Scheduled
+               /\ idle' = Ev.t /\ UNCHANGED tsvars
+TInvokedIdle == Ev.e = "Invoked" /\ Ev.st = "CANCELED" /\ idle # 0 /\ Ev.t = idle /\ idle' = 0 /\ UNCHANGED tsvars
+TCancelIdleEnd == Ev.e = "CancelIdleEnd" /\ idle' = 0 /\ UNCHANGED tsvars
+Other == idle = 0 /\ idle' = 0
 
 TReset == /\ Ev.e = "Reset"
           /\ asap' = <<>> /\ timed' = NoTimes /\ phase' = "idle" /\ now' = 0 /\ runId' = 0
@@ -29,8 +39,9 @@ TFin == Ev.e = "Fin" /\ phase = "idle" /\ owed = NONE /\ Scheduled = {} /\ UNCHA
 TEnd == Ev.e = "End" /\ UNCHANGED tsvars
 
 TNext == /\ l <= TraceLen /\ l' = l + 1
-         /\ \/ TReset \/ TScheduleNow \/ TScheduleFuture \/ TCancel \/ TRunAllBegin \/ TInvokedRun \/ TInvokedCanceled
-            \/ TRunAllEnd \/ THasTasks \/ TCleanUpBegin \/ TCleanUpEnd \/ TFin \/ TEnd
-TInit == l = 1 /\ TSInit
-TSpec == TInit /\ [][TNext]_<<tsvars, l>>
+         /\ \/ TCancelIdle \/ TInvokedIdle \/ TCancelIdleEnd
+            \/ Other /\ (\/ TReset \/ TScheduleNow \/ TScheduleFuture \/ TCancel \/ TRunAllBegin \/ TInvokedRun \/ TInvokedCanceled
+                          \/ TRunAllEnd \/ THasTasks \/ TCleanUpBegin \/ TCleanUpEnd \/ TFin \/ TEnd)
+TInit == l = 1 /\ TSInit /\ idle = 0
+TSpec == TInit /\ [][TNext]_<<tsvars, l, idle>>
 =============================================================================
